@@ -5,6 +5,7 @@ import (
 	"crypto"
 	"errors"
 	"fmt"
+	"github.com/go-git/go-git/v6/internal/simhook"
 	"io"
 	"os"
 	"runtime"
@@ -111,6 +112,7 @@ func NewObjectStorageWithOptions(dir *dotgit.DotGit, objectCache cache.Object, o
 // Returns a non-nil error only for real I/O failures; a missing alternates
 // file (os.ErrNotExist) is silently ignored since alternates are optional.
 func (s *ObjectStorage) initAlternates() error {
+	simhook.BeforeRLock(&s.muA)
 	s.muA.RLock()
 	if s.alternatesInit {
 		err := s.alternatesErr
@@ -119,6 +121,7 @@ func (s *ObjectStorage) initAlternates() error {
 	}
 	s.muA.RUnlock()
 
+	simhook.BeforeLock(&s.muA)
 	s.muA.Lock()
 	defer s.muA.Unlock()
 
@@ -144,6 +147,7 @@ func (s *ObjectStorage) initAlternates() error {
 // resetAlternates closes cached alternates and marks them for re-initialization.
 // Must be called when the on-disk alternates list changes (e.g. via AddAlternate).
 func (s *ObjectStorage) resetAlternates() {
+	simhook.BeforeLock(&s.muA)
 	s.muA.Lock()
 	defer s.muA.Unlock()
 
@@ -167,6 +171,7 @@ func findInAlternates[T any](s *ObjectStorage, fn func(*ObjectStorage) (T, error
 		return zero, err
 	}
 
+	simhook.BeforeRLock(&s.muA)
 	s.muA.RLock()
 	defer s.muA.RUnlock()
 
@@ -224,6 +229,7 @@ func findInAlternates[T any](s *ObjectStorage, fn func(*ObjectStorage) (T, error
 // winning goroutine publishes the local map under s.muI.Lock and
 // joiners block in singleflight.Do until the in-flight call returns.
 func (s *ObjectStorage) requireIndex() error {
+	simhook.BeforeRLock(&s.muI)
 	s.muI.RLock()
 	if s.index != nil {
 		s.muI.RUnlock()
@@ -235,6 +241,7 @@ func (s *ObjectStorage) requireIndex() error {
 		// Re-check inside the singleflight window: a racing winner
 		// may have already published, in which case there is
 		// nothing for this caller to do.
+		simhook.BeforeRLock(&s.muI)
 		s.muI.RLock()
 		if s.index != nil {
 			s.muI.RUnlock()
@@ -247,6 +254,7 @@ func (s *ObjectStorage) requireIndex() error {
 			return nil, err
 		}
 
+		simhook.BeforeLock(&s.muI)
 		s.muI.Lock()
 		if s.index == nil {
 			s.index = local
@@ -296,6 +304,7 @@ func (s *ObjectStorage) Reindex() error {
 			return nil, err
 		}
 
+		simhook.BeforeLock(&s.muI)
 		s.muI.Lock()
 		s.index = local
 		s.packs = entries
@@ -468,6 +477,7 @@ func (s *ObjectStorage) packfileWriter(newPack func() (*dotgit.PackWriter, error
 		if err != nil {
 			return
 		}
+		simhook.BeforeLock(&s.muI)
 		s.muI.Lock()
 		if _, existed := s.index[h]; !existed {
 			// Copy-on-grow rather than append-in-place so any
@@ -864,6 +874,7 @@ func (s *ObjectStorage) decodeDeltaObjectAt(
 // FindOffset's contract returns an offset only for the hash it
 // was asked about.
 func (s *ObjectStorage) findObjectInPackfile(h plumbing.Hash) (plumbing.Hash, idxfile.Index, int64) {
+	simhook.BeforeRLock(&s.muI)
 	s.muI.RLock()
 	packs := s.packs
 	s.muI.RUnlock()
@@ -931,6 +942,7 @@ func (s *ObjectStorage) HashesWithPrefix(prefix []byte) ([]plumbing.Hash, error)
 	// stay alive for the duration of the loop via this slice; the
 	// underlying SharedFile FDs are governed by their refcount and
 	// the fdpool, not by removal from s.index.
+	simhook.BeforeRLock(&s.muI)
 	s.muI.RLock()
 	indexes := make([]idxfile.Index, 0, len(s.index))
 	for _, idx := range s.index {
@@ -963,6 +975,7 @@ func (s *ObjectStorage) HashesWithPrefix(prefix []byte) ([]plumbing.Hash, error)
 	if err := s.initAlternates(); err != nil {
 		return nil, err
 	}
+	simhook.BeforeRLock(&s.muA)
 	s.muA.RLock()
 	defer s.muA.RUnlock()
 	for _, alt := range s.alternates {
@@ -1025,6 +1038,7 @@ func (s *ObjectStorage) buildPackfileIters(
 			if err != nil {
 				return nil, err
 			}
+			simhook.BeforeRLock(&s.muI)
 			s.muI.RLock()
 			idx := s.index[h]
 			s.muI.RUnlock()
@@ -1040,6 +1054,7 @@ func (s *ObjectStorage) buildPackfileIters(
 func (s *ObjectStorage) Close() error {
 	var firstError error
 
+	simhook.BeforeRLock(&s.muA)
 	s.muA.RLock()
 	for _, alt := range s.alternates {
 		if err := alt.Close(); err != nil && firstError == nil {
@@ -1051,6 +1066,7 @@ func (s *ObjectStorage) Close() error {
 	// Close each cached Index. LazyIndex.Close releases idle file
 	// descriptors and permanently disables the index; MemoryIndex's
 	// Close is a no-op.
+	simhook.BeforeRLock(&s.muI)
 	s.muI.RLock()
 	for _, idx := range s.index {
 		if err := idx.Close(); firstError == nil && err != nil {
@@ -1101,6 +1117,7 @@ func (s *ObjectStorage) CloseIdleDescriptors() error {
 	// fan-out. The storer.IdleReleaser assertion picks up
 	// LazyIndex automatically and silently skips index
 	// implementations that hold no FDs (notably MemoryIndex).
+	simhook.BeforeRLock(&s.muI)
 	s.muI.RLock()
 	for _, idx := range s.index {
 		if r, ok := idx.(storer.IdleReleaser); ok {
@@ -1111,6 +1128,7 @@ func (s *ObjectStorage) CloseIdleDescriptors() error {
 	}
 	s.muI.RUnlock()
 
+	simhook.BeforeRLock(&s.muA)
 	s.muA.RLock()
 	for _, alt := range s.alternates {
 		if err := alt.CloseIdleDescriptors(); err != nil {
@@ -1168,6 +1186,7 @@ func (s *ObjectStorage) DeleteOldObjectPackAndIndex(h plumbing.Hash, t time.Time
 	if err := s.dir.DeleteOldObjectPackAndIndex(h, t); err != nil {
 		return err
 	}
+	simhook.BeforeLock(&s.muI)
 	s.muI.Lock()
 	defer s.muI.Unlock()
 
